@@ -1,5 +1,7 @@
 package main
 
+import "golang.org/x/tools/go/ssa"
+
 func init() {
 	register(&PropertyDef{
 		ID:    "C15",
@@ -15,6 +17,15 @@ func init() {
 				or := runOrderEngine(p, r, "R15d", []string{"(*CachingScheduleTracker).AddBlockSummary", "getPrevPos"})
 				_, nSink := reportOrderEvents(p, r, or, orderRules{sink: "R15d"})
 				r.Floor("R15d", "requires-sorted call sites reached from the tracker", nSink, 2)
+			}},
+			{ID: "R15j", Statement: "resized lists are taken from the helper's result", Run: func(p *Program, r *Report) {
+				var es []*ssa.Function
+				for _, n := range []string{"(*CachingScheduleTracker).AddBlockSummary", "(*CachingScheduleTracker).GenerateCachingSchedule"} {
+					if f := p.Func(n); f != nil {
+						es = append(es, f)
+					}
+				}
+				checkThreadedState(p, r, "R15j", es, 2)
 			}},
 			{ID: "R15i", Statement: "the memory limit bounds, it does not size", Run: func(p *Program, r *Report) {
 				r.Rule("R15i", "LIMIT-NOT-ALLOCATED: no allocation of the schedule generator is sized by its memory-limit parameter (the property ranges over limits up to unbounded)")
